@@ -9,4 +9,4 @@ def run(ctx):
            what="read, get_continuous_blocks, read(sub_channel), get_bounds, read_vector / read_vector_raw / read_vector_1d on "
                 "all interesting points (file, block, gap edges +-1, session starts, outside the data), random split points, "
                 "vector lengths 1, 2, nsub and random",
-           bad_rate=0.02, empty_rate=0.0, observe_pairs=ctx.pick(45, 70), nvec=ctx.pick(25, 40))
+           bad_rate=0.02, empty_rate=0.0, observe_pairs=ctx.pick(32, 70), nvec=ctx.pick(18, 40))
